@@ -34,8 +34,13 @@ def gen_cases(g, rng, per_type, maxlen):
                     # the EXPLICIT API on both twins, in the middle of the shortcut history: replace the first child of that name (or add), remove it
                     ops.append([rng.choice(['R', 'R', 'D']), n])
                     ops.append(['g', n])
-                elif x < 0.50:
+                elif x < 0.46:
                     ops.append(['x', n])
+                elif x < 0.50:
+                    # an element of another class given to the shortcut
+                    o = rng.choice([y for y in sub if y != n] or names_all)
+                    if o != n:
+                        ops.append(['X', n, o])
                 elif x < 0.60:
                     ops.append(['n', n])
                 elif x < 0.70:
@@ -90,7 +95,7 @@ def run(rep):
                         key = 'C15:name-attribute'
                     rep.finding_or_violation(key, '%s: %s' % (c['type'], why), {'type': c['type'], 'ops': c['ops'][:oi + 1], 'why': why, 'a': r['a'], 'b': r['b']})
                     break
-    rep.coverage.update({'evaluations': len(cases), 'distinct_nontrivial': len({(c['type'], json.dumps(c['ops'])) for c in cases if any(o[0] in 'xnv' for o in c['ops'])}),
+    rep.coverage.update({'evaluations': len(cases), 'distinct_nontrivial': len({(c['type'], json.dumps(c['ops'])) for c in cases if any(o[0] in 'xnvX' for o in c['ops'])}),
                          'traces_validated_against_impl': len(cases), 'operations_compared': nops, 'input_distribution': kinds,
                          'rule': 'mixed sequences of add_child, xml_* instance / None / scalar assignments, xml_* reads, attribute assignments and reads on twins '
                                  'of every element-content type; non-trivial = distinct sequence containing a shortcut child assignment',
